@@ -291,7 +291,7 @@ impl World {
                         va_id,
                         &r.vamm_owner,
                         json!({"decimals": v.decimals, "pricefeed": addrs.pricefeed, "margin_engine": addrs.engine,
-                            "insurance_fund": addrs.insurance_fund, "quote_asset": "USD", "base_asset": KEYS[i],
+                            "insurance_fund": if v.init_if { Value::String(addrs.insurance_fund.clone()) } else { Value::Null }, "quote_asset": "USD", "base_asset": KEYS[i],
                             "quote_asset_reserve": v.q.to_string(), "base_asset_reserve": v.b.to_string(),
                             "funding_period": v.funding_period, "toll_ratio": v.toll.to_string(),
                             "spread_ratio": v.spread.to_string(), "fluctuation_limit_ratio": v.fluct.to_string()}),
@@ -408,10 +408,12 @@ impl World {
         Ok(w)
     }
 
+    /// dt = 0 stands for a sub-second block interval: the height advances, the clock by 300 ms only, so consecutive
+    /// blocks can share the same whole second
     pub fn advance(&mut self, dh: u64, dt: u64) {
         self.app.update_block(|b| {
             b.height += dh;
-            b.time = b.time.plus_seconds(dt);
+            b.time = if dt == 0 { b.time.plus_nanos(300_000_000) } else { b.time.plus_seconds(dt) };
         });
     }
 
